@@ -189,6 +189,10 @@ func propC14(w *World, r *Report) {
 	RunBigEndian(w, r, func(p string) bool {
 		return p == modPath+"/name" || p == modPath+"/post" || p == modPath+"/mac"
 	})
+	for _, a := range boundsAssumptions {
+		r.Assumes(a)
+	}
+	RunLosslessFor(w, r, "C14", newBoundsRun(w))
 }
 
 func checkXExt(w *World, r *Report) {
